@@ -1,0 +1,230 @@
+package yaml
+
+import (
+	"fmt"
+
+	"github.com/grafana/cog/internal/ast"
+	"github.com/grafana/cog/internal/veneers"
+)
+
+// validateType checks that a type described in a configuration file is
+// well-formed: its kind is known and the definition matching that kind is
+// present (`kind: struct` comes with a `struct:` definition, ...), recursively.
+//
+// Types are decoded field by field from YAML: nothing else guarantees that
+// `kind` and the rest of the type agree, and every compiler pass and jenny
+// relies on it.
+func validateType(def ast.Type) error {
+	switch def.Kind {
+	case ast.KindScalar:
+		if def.Scalar == nil {
+			return fmt.Errorf("type of kind '%s' without a '%s' definition", def.Kind, def.Kind)
+		}
+
+		if !validScalarKind(def.Scalar.ScalarKind) {
+			return fmt.Errorf("unknown scalar kind '%s'", def.Scalar.ScalarKind)
+		}
+
+		for _, constraint := range def.Scalar.Constraints {
+			if len(constraint.Args) == 0 {
+				return fmt.Errorf("constraint '%s' without arguments", constraint.Op)
+			}
+		}
+	case ast.KindArray:
+		if def.Array == nil {
+			return fmt.Errorf("type of kind '%s' without an '%s' definition", def.Kind, def.Kind)
+		}
+
+		if err := validateType(def.Array.ValueType); err != nil {
+			return fmt.Errorf("array value: %w", err)
+		}
+	case ast.KindMap:
+		if def.Map == nil {
+			return fmt.Errorf("type of kind '%s' without a '%s' definition", def.Kind, def.Kind)
+		}
+
+		if err := validateType(def.Map.IndexType); err != nil {
+			return fmt.Errorf("map index: %w", err)
+		}
+		if err := validateType(def.Map.ValueType); err != nil {
+			return fmt.Errorf("map value: %w", err)
+		}
+	case ast.KindStruct:
+		if def.Struct == nil {
+			return fmt.Errorf("type of kind '%s' without a '%s' definition", def.Kind, def.Kind)
+		}
+
+		for _, field := range def.Struct.Fields {
+			if err := validateType(field.Type); err != nil {
+				return fmt.Errorf("field '%s': %w", field.Name, err)
+			}
+		}
+	case ast.KindEnum:
+		if def.Enum == nil {
+			return fmt.Errorf("type of kind '%s' without an '%s' definition", def.Kind, def.Kind)
+		}
+
+		if len(def.Enum.Values) == 0 {
+			return fmt.Errorf("enum without values")
+		}
+
+		for _, member := range def.Enum.Values {
+			if member.Type.Kind != ast.KindScalar {
+				return fmt.Errorf("enum member '%s': the type of a member must be a scalar", member.Name)
+			}
+			if err := validateType(member.Type); err != nil {
+				return fmt.Errorf("enum member '%s': %w", member.Name, err)
+			}
+			if member.Value == nil {
+				return fmt.Errorf("enum member '%s' without a value", member.Name)
+			}
+		}
+	case ast.KindRef:
+		if def.Ref == nil {
+			return fmt.Errorf("type of kind '%s' without a '%s' definition", def.Kind, def.Kind)
+		}
+	case ast.KindConstantRef:
+		if def.ConstantReference == nil {
+			return fmt.Errorf("type of kind '%s' without a 'constantreference' definition", def.Kind)
+		}
+	case ast.KindDisjunction:
+		if def.Disjunction == nil {
+			return fmt.Errorf("type of kind '%s' without a '%s' definition", def.Kind, def.Kind)
+		}
+
+		if len(def.Disjunction.Branches) == 0 {
+			return fmt.Errorf("disjunction without branches")
+		}
+
+		for i, branch := range def.Disjunction.Branches {
+			if err := validateType(branch); err != nil {
+				return fmt.Errorf("disjunction branch %d: %w", i, err)
+			}
+		}
+	case ast.KindIntersection:
+		if def.Intersection == nil {
+			return fmt.Errorf("type of kind '%s' without an '%s' definition", def.Kind, def.Kind)
+		}
+
+		for i, branch := range def.Intersection.Branches {
+			if err := validateType(branch); err != nil {
+				return fmt.Errorf("intersection branch %d: %w", i, err)
+			}
+		}
+	case ast.KindComposableSlot:
+		if def.ComposableSlot == nil {
+			return fmt.Errorf("type of kind '%s' without a '%s' definition", def.Kind, def.Kind)
+		}
+	default:
+		return fmt.Errorf("unknown kind '%s'", def.Kind)
+	}
+
+	if variant, found := def.Hints[ast.HintImplementsVariant]; found {
+		if _, isString := variant.(string); !isString {
+			return fmt.Errorf("hint '%s' must be a string", ast.HintImplementsVariant)
+		}
+	}
+
+	return nil
+}
+
+func validScalarKind(kind ast.ScalarKind) bool {
+	switch kind {
+	case ast.KindNull, ast.KindAny, ast.KindBytes, ast.KindString,
+		ast.KindFloat32, ast.KindFloat64,
+		ast.KindUint8, ast.KindUint16, ast.KindUint32, ast.KindUint64,
+		ast.KindInt8, ast.KindInt16, ast.KindInt32, ast.KindInt64,
+		ast.KindBool:
+		return true
+	}
+
+	return false
+}
+
+func validateStructFields(fields []ast.StructField) error {
+	for _, field := range fields {
+		if err := validateType(field.Type); err != nil {
+			return fmt.Errorf("field '%s': %w", field.Name, err)
+		}
+	}
+
+	return nil
+}
+
+func validateArguments(arguments []ast.Argument) error {
+	for _, argument := range arguments {
+		if err := validateType(argument.Type); err != nil {
+			return fmt.Errorf("argument '%s': %w", argument.Name, err)
+		}
+	}
+
+	return nil
+}
+
+func validateAssignmentValue(value veneers.AssignmentValue) error {
+	if value.Argument != nil {
+		if err := validateType(value.Argument.Type); err != nil {
+			return fmt.Errorf("argument '%s': %w", value.Argument.Name, err)
+		}
+	}
+
+	if value.Envelope != nil {
+		for _, envelopeValue := range value.Envelope.Values {
+			if err := validateAssignmentValue(envelopeValue.Value); err != nil {
+				return fmt.Errorf("envelope field '%s': %w", envelopeValue.Field, err)
+			}
+		}
+	}
+
+	return nil
+}
+
+func validateOption(option veneers.Option) error {
+	if err := validateArguments(option.Arguments); err != nil {
+		return fmt.Errorf("option '%s': %w", option.Name, err)
+	}
+
+	for _, assignment := range option.Assignments {
+		if err := validateAssignmentValue(assignment.Value); err != nil {
+			return fmt.Errorf("option '%s': assignment to '%s': %w", option.Name, assignment.Path, err)
+		}
+	}
+
+	return nil
+}
+
+func validateOptionCallParameters(parameters []ast.OptionCallParameter) error {
+	for _, parameter := range parameters {
+		if parameter.Argument != nil {
+			if err := validateType(parameter.Argument.Type); err != nil {
+				return fmt.Errorf("argument '%s': %w", parameter.Argument.Name, err)
+			}
+		}
+		if parameter.Constant != nil {
+			if err := validateType(parameter.Constant.Type); err != nil {
+				return fmt.Errorf("constant: %w", err)
+			}
+		}
+		if parameter.Factory != nil {
+			if err := validateOptionCallParameters(parameter.Factory.Parameters); err != nil {
+				return err
+			}
+		}
+	}
+
+	return nil
+}
+
+func validateFactory(factory ast.BuilderFactory) error {
+	if err := validateArguments(factory.Args); err != nil {
+		return fmt.Errorf("factory '%s': %w", factory.Name, err)
+	}
+
+	for _, call := range factory.OptionCalls {
+		if err := validateOptionCallParameters(call.Parameters); err != nil {
+			return fmt.Errorf("factory '%s': option '%s': %w", factory.Name, call.Name, err)
+		}
+	}
+
+	return nil
+}
